@@ -294,6 +294,47 @@ def fn_path(mod, it):
     return '%s::%s' % (mod, it['name'])
 
 
+def r7_matches(src, lo, hi, mask=None):
+    """(start, end, operand) of every `OPERAND as f32` in src[lo:hi] (operand = unary/postfix expression before `as`)"""
+    res = []
+    for m in re.finditer(r'\s+as\s+f32\b', src[lo:hi]):
+        p = lo + m.start()
+        if mask is not None and mask[lo + m.end() - 1] != ord('c'): continue
+        i = p - 1
+        while i > lo and src[i].isspace(): i -= 1
+        while i > lo:
+            ch = src[i]
+            if ch in ')]':
+                d = 0
+                while i > lo:
+                    if src[i] in ')]': d += 1
+                    elif src[i] in '([':
+                        d -= 1
+                        if d == 0: break
+                    i -= 1
+                i -= 1
+            elif ch.isalnum() or ch in '._':
+                i -= 1
+            elif ch == ':' and src[i - 1] == ':':
+                i -= 2
+            else:
+                break
+        start = i + 1
+        while start - 1 > lo and src[start - 1] in '*-&!' and not (src[start - 2].isalnum() or src[start - 2] in ')]_'):
+            start -= 1
+        operand = src[start:p].strip()
+        if operand and '|' not in operand:
+            res.append((start, lo + m.end(), operand))
+    return res
+
+
+def r7_rewrite_string(text):
+    out = text
+    for a0, b0, op0 in sorted(r7_matches(' ' + text, 0, len(text) + 1), reverse=True):
+        out = out[:a0 - 1] + 'crate::spec::cast_f32(%s)' % op0 + out[b0 - 1:]
+    return out
+
+
 def apply_rewrites(src, mask, it, ed, stats, spec_entry):
     """R3/R4/R5 inside the body of fn item `it` (see DESIGN 2.1). Purely syntactic, pattern driven."""
     lo, hi = it['body_start'], it['end']
@@ -342,6 +383,41 @@ def apply_rewrites(src, mask, it, ed, stats, spec_entry):
             if mask[lo + m.start()] != ord('c'): continue
             ed.replace(lo + m.start(), lo + m.end(), '*%s %s *%s' % (m.group(1), m.group(2), m.group(3)))
             stats['R6_refcmp'] = stats.get('R6_refcmp', 0) + 1
+    # R7: `E as f32` => `cast_f32(E)` (Verus cannot translate `usize as f32`; the wrapper's body is the cast itself).
+    #     Statements rewritten by R4 get the same treatment inside their replacement text (see r7_rewrite_string).
+    r4_ranges = []
+    for m in re.finditer(r'(?<![-+*/&|<>=!%^])(\+|-|\*|/|&|\|)=(?!=)', body):
+        if mask[lo + m.start()] == ord('c'):
+            j = lo + m.end()
+            while j < hi and not (mask[j] == ord('c') and src[j] in ';,}'): j += 1
+            i = lo + m.start()
+            while i > lo and not (mask[i] == ord('c') and src[i] in ';{},'): i -= 1
+            r4_ranges.append((i, j))
+    r7 = [(a0, b0, op0) for (a0, b0, op0) in r7_matches(src, lo, hi, mask) if not any(x <= a0 and b0 <= y + 1 for x, y in r4_ranges)]
+    # R7b: `E as usize` where E is textually a float expression (starts with `f32::`) => f32_to_usize(E) (no `f32 as usize` in Verus)
+    r7b = []
+    for m in re.finditer(r'(f32::\w+\s*\()', body):
+        s0 = lo + m.start()
+        if mask[s0] != ord('c'): continue
+        j = lo + m.end() - 1; d = 0
+        while j < hi:
+            if mask[j] == ord('c'):
+                if src[j] == '(': d += 1
+                elif src[j] == ')':
+                    d -= 1
+                    if d == 0: break
+            j += 1
+        m2 = re.match(r'\s+as\s+usize\b', src[j + 1:hi])
+        if m2:
+            r7b.append((s0, j + 1, j + 1 + m2.end()))
+    for (a0, b0, op0) in r7:
+        inner = [x for x in r7b if x[0] <= a0 and b0 <= x[1]]
+        if inner: continue
+        ed.replace(a0, b0, 'crate::spec::cast_f32(%s)' % op0)
+        stats['R7_cast_f32'] = stats.get('R7_cast_f32', 0) + 1
+    for (s0, e0, end0) in r7b:
+        ed.replace(s0, end0, 'crate::spec::f32_to_usize(%s)' % r7_rewrite_string(src[s0:e0]))
+        stats['R7_cast_f32'] = stats.get('R7_cast_f32', 0) + 1
     # R5b: `for &x in E { B }` => `for x in E { let x = *x; B }` (reference pattern on a Copy element)
     for L in loops:
         if L['kind'] != 'for': continue
@@ -393,7 +469,7 @@ def apply_rewrites(src, mask, it, ed, stats, spec_entry):
         lead = src[lhs_lo:p][:len(src[lhs_lo:p]) - len(src[lhs_lo:p].lstrip())]
         semi = ';' if src[j] == ';' else ''
         end = j + 1 if src[j] == ';' else j
-        ed.replace(lhs_lo, end, '%s{ let r4_t%d = %s; %s = %s %s r4_t%d; }' % (lead, k, rhs, lhs, lhs, op2, k))
+        ed.replace(lhs_lo, end, '%s{ let r4_t%d = %s; %s = %s %s r4_t%d; }' % (lead, k, r7_rewrite_string(rhs), lhs, lhs, op2, k))
         k += 1; stats['R4_compound'] += 1
     return
 
